@@ -217,6 +217,9 @@ type c13Reader struct {
 	b    []byte
 	mode int
 	read int
+	// eofWithData: the read that delivers the last byte returns io.EOF together
+	// with the data (allowed by the io.Reader contract; io.ReadFull copes)
+	eofWithData bool
 }
 
 func (r *c13Reader) Read(p []byte) (int, error) {
@@ -240,6 +243,9 @@ func (r *c13Reader) Read(p []byte) (int, error) {
 	copy(p, r.b[:n])
 	r.b = r.b[n:]
 	r.read += n
+	if r.eofWithData && len(r.b) == 0 {
+		return n, io.EOF
+	}
 	return n, nil
 }
 
@@ -372,7 +378,7 @@ func (x *c13Lib) step(si int, op c13Op) {
 		}
 		i := c13Sel(op.I, len(w.lb))
 		ent := op.D.Bytes()
-		rd := &c13Reader{b: ent, mode: (op.G + x.chunkx) % 3}
+		rd := &c13Reader{b: ent, mode: (op.G + x.chunkx) % 3, eofWithData: (op.G+x.chunkx)/3%2 == 1}
 		r, err := w.lb[i].Finalize(rd)
 		w.lb = append(w.lb[:i:i], w.lb[i+1:]...)
 		if len(ent) < 32 {
@@ -413,7 +419,7 @@ func (x *c13Lib) final() {
 		x.out(-1, "final:Transcript.ExtractBytes", dest)
 	}
 	for _, b := range x.w.lb {
-		r, err := b.Finalize(&c13Reader{b: append([]byte(nil), c13FinalEntropy...), mode: x.chunkx % 3})
+		r, err := b.Finalize(&c13Reader{b: append([]byte(nil), c13FinalEntropy...), mode: x.chunkx % 3, eofWithData: x.chunkx/3%2 == 1})
 		if err != nil || r == nil {
 			x.fail("TranscriptRngBuilder.Finalize:unexpected-error", "final sweep err=%v", err)
 			return
